@@ -317,6 +317,18 @@ func (s Emitter) formatWhere(output io.Writer, whereClause *cypher.Where) error 
 	return nil
 }
 
+// formatFloatLiteral renders a floating point literal such that it is read back as a floating
+// point literal: a whole number keeps a fractional part ("1000.0", never "1000").
+func formatFloatLiteral(value float64) string {
+	formatted := strconv.FormatFloat(value, 'f', -1, 64)
+
+	if !strings.ContainsAny(formatted, ".eEIN") {
+		formatted += ".0"
+	}
+
+	return formatted
+}
+
 func (s Emitter) formatMapLiteral(output io.Writer, mapLiteral cypher.MapLiteral) error {
 	if _, err := io.WriteString(output, "{"); err != nil {
 		return err
@@ -430,12 +442,12 @@ func (s Emitter) formatLiteral(output io.Writer, literal *cypher.Literal) error 
 		}
 
 	case float32:
-		if _, err := io.WriteString(output, strconv.FormatFloat(float64(typedLiteral), 'f', -1, 64)); err != nil {
+		if _, err := io.WriteString(output, formatFloatLiteral(float64(typedLiteral))); err != nil {
 			return err
 		}
 
 	case float64:
-		if _, err := io.WriteString(output, strconv.FormatFloat(typedLiteral, 'f', -1, 64)); err != nil {
+		if _, err := io.WriteString(output, formatFloatLiteral(typedLiteral)); err != nil {
 			return err
 		}
 
